@@ -64,7 +64,13 @@ fn gen_stats(n: u64, show: bool) {
     let t0 = std::time::Instant::now();
     for i in 0..n {
         let mut p = prng::Prng::for_case(1, "gen", i);
-        let src = gen::program(&mut p);
+        let src = match guarded(|| gen::program(&mut p)) {
+            Ok(s) => s,
+            Err(m) => {
+                eprintln!("GENERATOR PANIC in case {i}: {m}");
+                std::process::exit(3);
+            }
+        };
         let a = analyse(&src, &mut p);
         if show {
             println!("// ---- {i} typechecks={} {}\n{src}", a.typechecks, a.note);
@@ -82,6 +88,11 @@ fn gen_stats(n: u64, show: bool) {
             }
         } else {
             rej += 1;
+            if a.note.starts_with("front end panicked") {
+                *errs.entry(a.note.clone()).or_insert(0) += 1;
+                if show { println!("// FRONT END PANIC {}", a.note); }
+                continue;
+            }
             let r = garble_lang::check(&src);
             if let Err(e) = r {
                 let m = format!("{e:?}");
@@ -123,6 +134,7 @@ fn c06_def(plan: &c06::Plan) -> driver::PropertyDef {
         crash_is_violation: false,
         n_cases: plan.n_cases(),
         determinism_sample: 0,
+        deferred_error: None,
     }
 }
 
@@ -141,6 +153,7 @@ fn c11_def(plan: &c11::CasePlan) -> driver::PropertyDef {
         crash_is_violation: true,
         n_cases: plan.n_cases(),
         determinism_sample: 0,
+        deferred_error: None,
     }
 }
 
@@ -159,6 +172,7 @@ fn c16_def(plan: &c16::CasePlan) -> driver::PropertyDef {
         crash_is_violation: true,
         n_cases: plan.n_cases(),
         determinism_sample: 0,
+        deferred_error: None,
     }
 }
 
@@ -228,8 +242,8 @@ fn check(property: &str, tier: &str) -> i32 {
                     }
                 }
                 Err(e) => {
-                    println!("HARNESS-ERROR: {e}");
-                    return 2;
+                    // deferred: the run below may explain it with a replayable violation
+                    def.deferred_error = Some(e);
                 }
             }
             driver::run_check(&def, tier, seed)
